@@ -806,6 +806,8 @@ def compare(results: list[dict], ref: dict) -> tuple[list[dict], list[dict], dic
                 words = set(ref["reference"][lang])
                 s = impl[1]
                 hit = s if s in words else next((c for c in component_tokens(s) if c in words and t["attr"] in ("namespace", "package", "typename")), None)
+                if hit is not None and t["attr"] == "derived_name" and (t["recipe"] or [""])[0] != "base_record":
+                    hit = None        # the user-derived class only exists (and is only printed) for an extended record
                 if hit is not None:
                     cands.append({**where, "word": hit, "emitted": s, "role": role_of.get(key, f"{t['cls']}.{t['attr']}"), "recipe": t["recipe"],
                                   "config_full": r["config"], "lang": lang})
